@@ -31,7 +31,7 @@ LEG = "kd_mpr"
 LEAN_MODULES = ["TorchDataVerif.Props.C01MP"]
 T = "TDV.MPR."
 THEOREMS = [T + t for t in (
-    "snapshot_sound_map", "restore_ideal_map", "resume_exact_map", "chain_map",
+    "snapshot_sound_map", "snapshot_denotes_map", "restore_ideal_map", "resume_exact_map", "chain_map",
     "snapshot_sound_iter_partial", "restore_ideal_iter_partial", "resume_exact_iter_partial", "chain_iter_partial",
     "resume_exact_iter_of",
 )]
